@@ -382,7 +382,6 @@ def user_map(pairs):
     return out
 
 
-NSK = re.compile(r"ns[0-9]+\Z")
 MARKUP = re.compile(r'[&<"]')
 
 
@@ -425,14 +424,6 @@ def _qname_atoms(v):
     for x in v if isinstance(v, list) else [v]:
         if isinstance(x, dict):
             yield x["q"]
-
-
-def p_nsk(a):
-    return any(isinstance(p, str) and NSK.match(p) for p in user_map(a["ns_map"]))
-
-
-def p_standard_rebound(a):
-    return any(p in STANDARD and STANDARD[p] != u for p, u in user_map(a["ns_map"]).items())
 
 
 def p_default_attr(a):
@@ -526,8 +517,6 @@ def p_qname_default_reset(a):
 
 # id -> (predicate, {writer: kinds})
 KNOWN = {
-    "c03-nsk-prefix-collision": (p_nsk, {"native": ("leak:KeyError", "infoset", "not-wf"), "lxml": ("infoset",)}),
-    "c03-standard-prefix-rebound": (p_standard_rebound, {"native": ("leak:KeyError", "infoset", "not-wf"), "lxml": ("infoset",)}),
     "c03-default-ns-attribute": (p_default_attr, {"native": ("infoset", "not-wf", "leak:KeyError")}),
     "c03-qname-default-reset": (p_qname_default_reset, {"native": ("infoset",), "lxml": ("infoset",)}),
     "c03-reserved-prefix": (p_reserved_prefix, {"native": ("not-wf", "infoset"), "lxml": ("leak:ValueError", "not-wf", "infoset")}),
@@ -580,15 +569,6 @@ from xsdata.formats.dataclass.serializers.config import SerializerConfig  # noqa
 
 
 @dataclass
-class RootB:
-    class Meta:
-        name = "R"
-        namespace = "urn:b"
-
-    x: Optional[str] = field(default=None, metadata={"type": "Attribute", "namespace": "urn:a"})
-
-
-@dataclass
 class RootA:
     class Meta:
         name = "R"
@@ -629,18 +609,6 @@ def _tree(text):
         return parse_scoped(text)
     except Exception:  # noqa: BLE001
         return None
-
-
-def f_nsk():
-    out = _render(RootB(x="1"), {"ns1": "urn:a"})
-    return out == "EXC KeyError", "render(R{urn:b} with @{urn:a}x, ns_map={'ns1':'urn:a'}) -> %s" % out
-
-
-def f_standard_rebound():
-    out = _render(RootA(q=QName("{%s}int" % XS)), {"xs": "urn:a"})
-    t = _tree(out)
-    bad = t is not None and t[4] and t[4][0][0] == "e" and t[4][0][1] == XS
-    return bool(bad), "render(R{urn:a}/q = xs:int QName, ns_map={'xs':'urn:a'}) -> %s (child q read in namespace %s)" % (out, t[4][0][1] if bad else "?")
 
 
 def f_default_attr():
@@ -733,8 +701,6 @@ def f_qname_default():
 
 
 FINDINGS = {
-    "c03-nsk-prefix-collision": f_nsk,
-    "c03-standard-prefix-rebound": f_standard_rebound,
     "c03-default-ns-attribute": f_default_attr,
     "c03-reserved-prefix": f_reserved_prefix,
     "c03-consecutive-text": f_consecutive_text,
